@@ -712,7 +712,7 @@ def random_history(rng, backend, path, nsteps, tiles=('t1', 't2', 't3', 't4')):
                 elif c < 0.42:
                     inm = NN_STR
                 elif c < 0.70:
-                    base = last_lm.get(t, w.clock // 2)
+                    base = rng.choice((last_lm.get(t, w.clock // 2), w.clock // 2))
                     ims_v = max(0, base + rng.choice((-1, 0, 0, 1, 2)))
                 elif c < 0.76:
                     ims_v = -2
@@ -819,9 +819,9 @@ def trace_phase(ctx, flags_by, ntraces, nsteps):
         if trs:
             ctx.sample({'kind': 'history recorded from the real application (%s cache, %s path), accepted by Trace_HttpCond' % (backend, path),
                         'events': [{k: v for k, v in e.items() if k not in ('raw', 'obs')} for e in trs[0][:6]]})
-    need = {('Get', 'cached'), ('Get', 'create'), ('Get', 'refresh'), ('Get', 'error'), ('Rewrite', '-'), ('Expire', '-'),
-            ('Tick', '-')}
-    got = {(str(a), str(b)) for a, b in phases_seen}
+    need = {('Get', 'cached', 200), ('Get', 'cached', 304), ('Get', 'create', 200), ('Get', 'refresh', 200),
+            ('Get', 'error', 200), ('Rewrite', '-', 0), ('Expire', '-', 0), ('Tick', '-', 0)}
+    got = {(str(a), str(b), c) for a, b, c in phases_seen}
     if not ctx.violations and need - got:
         raise tlc.MachineryError('vacuity: recorded histories never contained %s' % sorted(need - got))
 
